@@ -22,12 +22,14 @@ GOALS = {'quick': ['two port variables on one node', 'dotdot in a path',
                    '_path dictionary port', 'glob port', 'scalar port',
                    'nested schema port', 'glob below a glob',
                    'inner glob child declared by a process',
-                   '_path dictionary with the empty path'],
+                   '_path dictionary with the empty path',
+                   'scalar port on a top-level variable'],
          'thorough': ['two port variables on one node', 'dotdot in a path',
                       '_path dictionary port', 'glob port', 'scalar port',
                       'nested schema port', 'glob below a glob',
                       'inner glob child declared by a process',
-                      '_path dictionary with the empty path']}
+                      '_path dictionary with the empty path',
+                      'scalar port on a top-level variable']}
 STUBS = ['one process whose ports schema / topology are produced by a generator '
          'driven by solver-decided choices; it records the states of its first '
          'invocation and returns symbolic updates for every port variable',
@@ -204,8 +206,16 @@ def body(ctx, cfg):
                 targets[(port, var, None)] = base + (var,)
         elif KINDS[kind] == 'scalar':
             schema[port] = {'_default': 0}
-            topo[port] = w + ('v',)
-            targets[(port, None, None)] = base + ('v',)
+            if i <= 1 and cfg['k0'] == KINDS.index('scalar') \
+                    and ctx.flag('top'):
+                # wired to a variable directly under the root (absolute
+                # path of length 1)
+                topo[port] = ('..',) * depth + ('topv',)
+                targets[(port, None, None)] = ('topv',)
+                ctx.goal('scalar port on a top-level variable')
+            else:
+                topo[port] = w + ('v',)
+                targets[(port, None, None)] = base + ('v',)
             ctx.goal('scalar port')
         elif KINDS[kind] == 'pathdict':
             schema[port] = {'v': {'_default': 0}, 'u': {'_default': 0}}
